@@ -215,6 +215,14 @@ func judge(c faultCase, p prep, o cli.Outcome) harness.Result {
 	labels := []string{"kind:" + c.Kind, "fault:" + c.Fault, fmt.Sprintf("fc%d", c.Req.FC)}
 	if c.Prior != "" {
 		labels = append(labels, "prior:"+c.Prior)
+		if c.PriorRepeat >= 6 {
+			labels = append(labels, "prior-run>=6-calls")
+		} else if c.PriorRepeat >= 2 {
+			labels = append(labels, "prior-run:2-5-calls")
+		}
+		if c.PriorShape != "" {
+			labels = append(labels, "prior-request:"+c.PriorShape)
+		}
 	}
 	if c.ExcCode != 0 {
 		labels = append(labels, "exception-reply")
